@@ -518,7 +518,7 @@ def classify(cfg, mode, route, form, xs, exp, got, mutated):
     name = cfg["name"]
     if mutated:
         return f"C22/{name}/mutates-{mutated}/{mode}"
-    if got[0] == "raises" if isinstance(got, tuple) else False:
+    if isinstance(got, tuple) and got[0] == "raises":
         return f"C22/{name}/raises-{got[1]}/{mode}"
     if name == "slice":
         fill = cfg["args"][1] if len(cfg["args"]) > 1 else cfg["kwargs"].get("fill_with")
